@@ -43,6 +43,7 @@ class Schema:
         self.mods = []
         self.variant = "clean"
         self.edges = None      # known derivation graph: list of (child key, base key), or None
+        self.auto = []         # parts that the auto-loaded run leaves to Process to load from the search path
 
     def find(self, sub, name):
         for m in self.mods:
@@ -102,6 +103,31 @@ def ref_string(rnd, sc, src, target_part, idname, fresh_prefix=True):
     return p + ":" + idname
 
 
+def choose_auto(rnd, sc):
+    """family 'auto-loaded': some modules stay explicitly parsed; of the parts Process reaches from them through
+    import and include statements (loading what is missing from the search path) a subset is only put on the path"""
+    modules = [m for m in sc.mods if not m.sub]
+    roots = rnd.sample(modules, rnd.randint(1, len(modules)))
+    reach, todo = [], list(roots)
+    while todo:
+        x = todo.pop()
+        if any(x is y for y in reach):
+            continue
+        reach.append(x)
+        for _, n in x.imports:
+            t = sc.find(False, n)
+            if t is not None:
+                todo.append(t)
+        for n in x.includes:
+            t = sc.find(True, n)
+            if t is not None:
+                todo.append(t)
+    cand = [m for m in reach if not any(m is r for r in roots)]
+    if not cand:
+        return []
+    return rnd.sample(cand, rnd.randint(1, len(cand)))
+
+
 def consistent(sc):
     """no two identity statements of the loaded modules (with their included submodules) get the same key"""
     keys = [sc.key(p, n) for p in sc.visible_parts() for n, _ in p.idents]
@@ -112,6 +138,7 @@ def gen_schema(rnd):
     while True:
         sc = gen_schema1(rnd)
         if consistent(sc):
+            sc.auto = choose_auto(rnd, sc) if rnd.random() < 0.7 else []
             return sc
 
 
@@ -305,8 +332,13 @@ def yang_text(m):
     return "\n".join(out) + "\n"
 
 
-def go_line(sc):
-    toks = ["process", "-", ",".join(["L%d" % i for i in range(len(sc.mods))] + ["P"]), str(len(sc.mods))]
+def go_line(sc, auto=False):
+    """auto: the parts in sc.auto are put on the search path (op D) instead of being parsed (op L); Process
+    loads them itself when an import or include statement names them"""
+    on_path = sc.auto if auto else []
+    ops = ["D%d" % i for i, m in enumerate(sc.mods) if any(m is a for a in on_path)] + \
+          ["L%d" % i for i, m in enumerate(sc.mods) if not any(m is a for a in on_path)]
+    toks = ["process", "-", ",".join(ops + ["P"]), str(len(sc.mods))]
     for m in sc.mods:
         toks += [hx(m.name + ".yang"), hx(yang_text(m))]
     return " ".join(toks)
@@ -437,8 +469,24 @@ def expected(sc):
     return exp
 
 
-def judge(sc, go3, mls):
+def judge(sc, go3, mls, auto=None):
     """returns None or a description of the disagreement"""
+    why = judge_explicit(sc, go3, mls)
+    if why or auto is None:
+        return why
+    a, g = parse_go(sc, auto), parse_go(sc, go3[0])
+    if a[0].startswith("broken"):
+        return "auto-loaded run: implementation crashed, did not finish, or the harness is broken: " + a[0][7:]
+    if a[0] != g[0]:
+        return "error presence differs when %s are loaded by Process from the search path: %s, all parsed: %s" % (
+            [m.name for m in sc.auto], a[0], g[0])
+    if json.dumps(a, sort_keys=True) != json.dumps(g, sort_keys=True):
+        return "Values / identityref bases differ when %s are loaded by Process from the search path: %s, all parsed: %s" % (
+            [m.name for m in sc.auto], a[1:], g[1:])
+    return None
+
+
+def judge_explicit(sc, go3, mls):
     gos = [parse_go(sc, g) for g in go3]
     for g in gos:
         if g[0].startswith("broken"):
@@ -523,6 +571,26 @@ def fixed_schemas():
     sc.edges = [("a:l", "a:top"), ("a:r", "a:top"), ("a:bot", "a:l"), ("a:bot", "a:r"), ("b:bot", "a:bot"),
                 ("b:l", "a:top")]
     out.append(sc)
+    # a parsed module derives from, and refers to, identities of a module only Process loads; and a chain of two
+    root = Mod("root", False, "r")
+    root.idents = [["ROOT", []], ["INNER", ["ROOT"]]]
+    mid = Mod("mid", False, "m")
+    mid.imports = [("rt", "root")]
+    mid.idents = [["MID", ["rt:ROOT"]]]
+    top = Mod("top", False, "t")
+    top.imports = [("root", "root")]
+    top.idents = [["LOCAL", ["root:ROOT"]], ["LOCAL2", ["LOCAL"]]]
+    top.leaves = [("l0", "ref", "root:ROOT")]
+    sc = mk("clean", root, top)
+    sc.edges = [("root:INNER", "root:ROOT"), ("top:LOCAL", "root:ROOT"), ("top:LOCAL2", "top:LOCAL")]
+    sc.auto = [root]
+    out.append(sc)
+    top2 = Mod("top2", False, "t2")
+    top2.imports = [("mid", "mid")]
+    sc = mk("clean", root, mid, top2)
+    sc.edges = [("root:INNER", "root:ROOT"), ("mid:MID", "root:ROOT")]
+    sc.auto = [root, mid]
+    out.append(sc)
     # self base, two-cycle, cycle through two modules
     m = Mod("a", False, "p")
     m.idents = [["x", ["x"]]]
@@ -603,6 +671,29 @@ def run_all(schemas, timeout=900):
     return [[g[i] for g in go] for i in range(len(schemas))], [ml[i * n:(i + 1) * n] for i in range(len(schemas))]
 
 
+def run_auto(schemas, timeout=900):
+    """the auto-loaded run of every schema that has one (None otherwise)"""
+    idx = [i for i, sc in enumerate(schemas) if sc.auto]
+    tmp = tempfile.mkdtemp(prefix="c11cwd")
+    try:
+        try:
+            out = lib.run_go([go_line(schemas[i], auto=True) for i in idx], cwd=tmp, timeout=timeout)
+        except subprocess.TimeoutExpired:
+            out = ["TIMEOUT"] * len(idx)
+        for j, o in enumerate(out):     # see go_runs: find the case that really crashes
+            if o.startswith("CRASH") or o == "NOT-RUN":
+                try:
+                    out[j] = lib.run_go([go_line(schemas[idx[j]], auto=True)], cwd=tmp, shards=1, timeout=120)[0]
+                except subprocess.TimeoutExpired:
+                    out[j] = "TIMEOUT"
+    finally:
+        shutil.rmtree(tmp, ignore_errors=True)
+    res = [None] * len(schemas)
+    for i, o in zip(idx, out):
+        res[i] = o
+    return res
+
+
 def gen(tier, seed):
     rnd = random.Random(seed)
     n = 4000 if tier == "quick" else 60000
@@ -611,6 +702,7 @@ def gen(tier, seed):
 
 def replay_of(sc):
     return dict(kind="correspondence", variant=sc.variant, go_case=go_line(sc),
+                auto_case=go_line(sc, auto=True) if sc.auto else None, auto_parts=[m.name for m in sc.auto],
                 ml_cases=[ml_line(sc, o) for o in ORACLES],
                 texts={m.name + (".sub" if m.sub else "") + ".yang": yang_text(m) for m in sc.mods},
                 conv=dict(modules=[m.name for m in sc.mods if not m.sub]))
@@ -619,13 +711,14 @@ def replay_of(sc):
 def run(res, tier, seed, proof):
     schemas = gen(tier, seed)
     go, ml = run_all(schemas, timeout=240 if tier == "quick" else 1500)
-    hist = dict(clean=0, cyclic=0, dangling=0, free=0, accepted=0, rejected=0, with_submodule=0, with_leaf=0,
+    auto = run_auto(schemas, timeout=240 if tier == "quick" else 1500)
+    hist = dict(auto_loaded=sum(1 for a in auto if a is not None), clean=0, cyclic=0, dangling=0, free=0, accepted=0, rejected=0, with_submodule=0, with_leaf=0,
                 max_values=0, identities=0)
     nontrivial = set()
     mism = 0
-    for sc, g3, ms in zip(schemas, go, ml):
+    for sc, g3, ms, au in zip(schemas, go, ml, auto):
         hist[sc.variant] += 1
-        why = judge(sc, g3, ms)
+        why = judge(sc, g3, ms, au)
         if why:
             mism += 1
             if mism <= 3:
@@ -645,13 +738,16 @@ def run(res, tier, seed, proof):
             nontrivial.add(go_line(sc))
     mid = len(schemas) // 2
     cov = dict(
-        evaluations=len(schemas) * (GO_RUNS + len(ORACLES)), schemas=len(schemas), distinct_nontrivial=len(nontrivial),
+        evaluations=len(schemas) * (GO_RUNS + len(ORACLES)) + hist["auto_loaded"], schemas=len(schemas), distinct_nontrivial=len(nontrivial),
         rule="random schemas: 1-3 modules, 0-3 submodules (includes form a DAG, nested includes, submodules nobody "
              "includes), 0-12 identities with equal names in different modules, several bases per identity (DAG, "
              "diamonds, repeated base statements), arbitrary and clashing prefixes, identityref leaves directly and "
              "through typedefs in other modules; variants: clean / derivation cycle added / unresolvable base added / "
              "free-form mutations (duplicate import prefixes, foreign includes, unloaded belongs-to, random bases); "
-             "each schema: %d implementation runs, %d model runs with different iteration oracles; "
+             "each schema: %d implementation runs, %d model runs with different iteration oracles; family auto-loaded: "
+             "for most schemas one more implementation run in which a subset of the imported modules / included "
+             "submodules is not parsed but put on the search path, so that Process loads it itself -- the result "
+             "must equal the all-parsed run (and the model, which does not care how modules arrive); "
              "non-trivial = rejected, or some identity with at least two derived identities" % (GO_RUNS, len(ORACLES)),
         exhaustive=False, mismatches=mism, distribution=hist,
         samples=[yang_text(m) for m in schemas[0].mods][:2] + [yang_text(m)[:400] for m in schemas[mid].mods][:2],
@@ -672,6 +768,9 @@ def replay(rep, res):
     tmp = tempfile.mkdtemp(prefix="c11cwd")
     try:
         gos = [lib.run_go([rep["go_case"]], cwd=tmp)[0] for _ in range(GO_RUNS)]
+        if rep.get("auto_case"):
+            print("(last impl line: %s not parsed but loaded by Process from the search path)" % rep.get("auto_parts"))
+            gos.append(lib.run_go([rep["auto_case"]], cwd=tmp)[0])
     finally:
         shutil.rmtree(tmp, ignore_errors=True)
     mls = lib.run_ml(rep["ml_cases"])
